@@ -31,45 +31,50 @@ LITS = ['a', 'ab', 'Abc', 'a+b', 'x.y', '(', ')', '[a]', 'a|b', 'a*', 'a?', '\\'
 BLITS = [b'a', b'AB', b'a+', b'\xff', b'\x00a', b'k\xc3\xa9', b'\x80\x81', b'[a]', b'\\', b'Z\xe4']
 
 
+def c10_token_case(w, ic):
+    a = '#[token(%s, priority = 3%s)] A,' % (rust_str(w), ', ignore(case)' if ic else '')
+    ref = ('(?i:%s)' % my_escape(w)) if ic else my_escape(w)
+    b = '#[regex(%s, priority = 2)] B,' % rust_str(ref)
+    return dict(family='c10-token', src=enum([], [a, b]), meta=dict(lit=w.encode('utf-8').hex(), icase=ic, unicode=True, pair=(0, 1), token_leaf=0, expect_prio=3))
+
+
+def c10_btoken_case(w, ic):
+    a = '#[token(%s, priority = 3%s)] A,' % (rust_bytes(w), ', ignore(case)' if ic else '')
+    ref = ('(?i-u:%s)' % my_escape_bytes(w)) if ic else '(?-u:%s)' % my_escape_bytes(w)
+    b = '#[regex(%s, priority = 2)] B,' % rust_str(ref)
+    return dict(family='c10-btoken', src=enum(['#[logos(utf8 = false)]'], [a, b]), meta=dict(lit=w.hex(), icase=ic, unicode=False, pair=(0, 1), token_leaf=0))
+
+
 def fam_c10(R, n):
+    """every literal of LITS/BLITS with and without ignore(case) (systematic), then n random regex/skip/priority cases"""
     out = []
+    for w in LITS + ['kelvins', 'ask', 'S', 's', 'sk', 'Mask', 'µ', 'Ω', 'å', 'ǰ', 'ẞ']:
+        for ic in (True, False):
+            out.append(c10_token_case(w, ic))
+    for w in BLITS + [b'k', b'S', b'sk']:
+        for ic in (True, False):
+            out.append(c10_btoken_case(w, ic))
     for i in range(n):
         r = R.random()
-        if r < 0.35:
-            w = R.choice(LITS)
-            ic = R.random() < 0.6
-            a = '#[token(%s, priority = 3%s)] A,' % (rust_str(w), ', ignore(case)' if ic else '')
-            ref = ('(?i:%s)' % my_escape(w)) if ic else my_escape(w)
-            b = '#[regex(%s, priority = 2)] B,' % rust_str(ref)
-            out.append(dict(family='c10-token', src=enum([], [a, b]), meta=dict(lit=w.encode('utf-8').hex(), icase=ic, unicode=True, pair=(0, 1),
-                                                                               token_leaf=0, expect_prio=3)))
-        elif r < 0.5:
-            w = R.choice(BLITS)
-            ic = R.random() < 0.6
-            a = '#[token(%s, priority = 3%s)] A,' % (rust_bytes(w), ', ignore(case)' if ic else '')
-            ref = ('(?i-u:%s)' % my_escape_bytes(w)) if ic else '(?-u:%s)' % my_escape_bytes(w)
-            b = '#[regex(%s, priority = 2)] B,' % rust_str(ref)
-            out.append(dict(family='c10-btoken', src=enum(['#[logos(utf8 = false)]'], [a, b]),
-                            meta=dict(lit=w.hex(), icase=ic, unicode=False, pair=(0, 1), token_leaf=0)))
-        elif r < 0.62:
+        if r < 0.2:
             # default priority of a token is 2 * byte length whether or not case is ignored
             w = R.choice(LITS)
             ic = R.random() < 0.5
             a = '#[token(%s%s)] A,' % (rust_str(w), ', ignore(case)' if ic else '')
             out.append(dict(family='c10-prio', src=enum([], [a]), meta=dict(lit=w.encode('utf-8').hex(), icase=ic, unicode=True, token_leaf=0,
                                                                            expect_prio=2 * len(w.encode('utf-8')))))
-        elif r < 0.82:
+        elif r < 0.65:
             ast = gen_regex(R, 1, dict(perl=False))
-            p = ast.render()
+            p = R.choice([ast.render(), ast.render(), 'k+', 's|t', '[a-k]', 'ask?'])
             a = '#[regex(%s, priority = 3, ignore(case))] A,' % rust_str(p)
             b = '#[regex(%s, priority = 2)] B,' % rust_str('(?i:%s)' % p)
             out.append(dict(family='c10-regex', src=enum([], [a, b]), meta=dict(pattern=p.encode('utf-8').hex(), icase=True, unicode=True, pair=(0, 1))))
         else:
             ast = gen_regex(R, 1, dict(perl=False))
-            p = R.choice(['abc', 'a+', 'k', 'é', '[a-c]x', p if (p := ast.render()) else 'a'])
-            s = '#[logos(skip(%s, priority = 3, ignore(case)))]' % rust_str(p)
+            p = R.choice(['abc', 'a+', 'k', 'é', '[a-c]x', 's+', ast.render()])
+            s_ = '#[logos(skip(%s, priority = 3, ignore(case)))]' % rust_str(p)
             b = '#[regex(%s, priority = 2)] B,' % rust_str('(?i:%s)' % p)
-            out.append(dict(family='c10-skip', src=enum([s], [b]), meta=dict(pattern=p.encode('utf-8').hex(), icase=True, unicode=True, pair=(0, 1))))
+            out.append(dict(family='c10-skip', src=enum([s_], [b]), meta=dict(pattern=p.encode('utf-8').hex(), icase=True, unicode=True, pair=(0, 1))))
     return out
 
 
@@ -109,6 +114,18 @@ def fam_c11(R, n):
         attrs = ['#[logos(utf8 = false)]', '#[logos(subpattern s0 = %s)]' % rust_bytes(sub)]
         out.append(dict(family='c11-bsub', src=enum(attrs, ['#[regex(%s, priority = 3)] A,' % rust_str(pat), '#[regex(%s, priority = 2)] B,' % rust_str(ref)]),
                         meta=dict(pair=(0, 1), pattern=pat, reference=ref)))
+    # a str subpattern keeps Unicode mode when referenced from a byte-string pattern or under an outer (?-u)
+    for (sub, shape) in [('\\s+', '#(?&s0)'), ('.', 'a(?&s0)b'), ('[^x]', '(?&s0)+y'), ('\\d', 'n(?&s0)'), ('(?i)k+', '<(?&s0)>'), ('[α-ω]+', '(?&s0)=')]:
+        ref = shape.replace('(?&s0)', '(?u:%s)' % sub.replace('\\\\', '\\'))
+        sub_src = sub.replace('\\\\', '\\')
+        attrs = ['#[logos(utf8 = false)]', '#[logos(subpattern s0 = %s)]' % rust_str(sub_src)]
+        out.append(dict(family='c11-str-in-bytes', src=enum(attrs, ['#[regex(%s, priority = 3)] A,' % rust_bytes(shape.encode()), '#[regex(%s, priority = 2)] B,' % rust_bytes(ref.encode())]),
+                        meta=dict(pair=(0, 1), pattern=shape, reference=ref)))
+        attrs2 = ['#[logos(subpattern s0 = %s)]' % rust_str(sub_src)]
+        shape2 = '(?-u)' + shape
+        ref2 = '(?-u)' + ref
+        out.append(dict(family='c11-str-under-nonunicode', src=enum(['#[logos(utf8 = false)]'] + attrs2, ['#[regex(%s, priority = 3)] A,' % rust_str(shape2), '#[regex(%s, priority = 2)] B,' % rust_str(ref2)]),
+                        meta=dict(pair=(0, 1), pattern=shape2, reference=ref2)))
     # undefined names must be rejected
     for pat in ['(?&nope)', 'a(?&s1)', '(?&s0)(?&S0)']:
         attrs = ['#[logos(subpattern s0 = "a")]']
